@@ -10,7 +10,7 @@ ID = "C12"
 LEVEL = "model_checking"
 RULE = ("tree of four 131073-byte files that share prefix and suffix (two equal, two differing in the middle) plus two "
         "small files, on ext4 (deleted inode numbers are reused at once); events: edits {set content variant (same "
-        "length), append, truncate, rename, delete+recreate, hard-link, create, edit a small file} - every edit advances "
+        "length; also with the new mtime in the past of the old one), append, truncate, rename, delete+recreate, hard-link, create, edit a small file} - every edit advances "
         "the file's mtime by 10 ms - and runs `group --cache` with a configuration from {metro, blake3} x {no transform, "
         "transform keep} x --max-prefix-size {unset, 8192}, or a run SIGKILLed at 1/4, 1/2, 3/4 of its call history; "
         "ALL histories (edit, run)^d after an initial cache-filling run: quick d=2 over 10 edits x 2 configurations; "
@@ -28,10 +28,13 @@ EDITS_FULL = [
     ("set", "F2", "V1"), ("set", "F3", "V0"), ("set", "F4", "V1"), ("append", "F2"), ("truncate", "F2"),
     ("rename", "F1", "F1r"), ("recreate", "F2", "V1"), ("recreate", "F3", "V0"), ("hardlink", "F1", "F1h"),
     ("create", "F5", "V0"), ("small", "s2"),
+    # the same-length rewrite again, but the new modification time lies in the PAST of the recorded one
+    # (restore from a backup with preserved times, rsync -t --inplace): mtime changes, as the statement requires
+    ("set_older", "F2", "V1"), ("set_older", "F3", "V0"),
 ]
-EDITS_QUICK = [e for e in EDITS_FULL if e != ("set", "F4", "V1")]
+EDITS_QUICK = [e for e in EDITS_FULL if e not in (("set", "F4", "V1"), ("set_older", "F3", "V0"), ("truncate", "F2"))]
 EDITS_D3 = [("set", "F2", "V1"), ("set", "F3", "V0"), ("rename", "F1", "F1r"), ("recreate", "F2", "V1"),
-            ("recreate", "F3", "V0"), ("append", "F2")]
+            ("recreate", "F3", "V0"), ("append", "F2"), ("set_older", "F2", "V1")]
 CONFIGS = {
     "metro": ["--hash-fn", "metro"],
     "blake3": ["--hash-fn", "blake3"],
@@ -74,6 +77,7 @@ class World:
     def __init__(self, sc):
         self.sc = sc
         self.clock = 1_600_000_000_000   # ms
+        self.past = 1_500_000_000_000    # ms, for edits that move a file's mtime backwards
         self.paths = {}
         self.reuse = 0
 
@@ -84,6 +88,10 @@ class World:
         self.clock += 10
         os.utime(path, ns=(self.clock * 1_000_000, self.clock * 1_000_000))
 
+    def tick_back(self, path):
+        self.past -= 10
+        os.utime(path, ns=(self.past * 1_000_000, self.past * 1_000_000))
+
     def write(self, name, data):
         with open(self.p(name), "wb") as f:
             f.write(data)
@@ -93,7 +101,7 @@ class World:
         kind = edit[0]
         name = edit[1]
         p = self.p(name)
-        if kind == "set":
+        if kind in ("set", "set_older"):
             if not os.path.exists(p):
                 return False
             cur = os.path.getsize(p)
@@ -101,7 +109,10 @@ class World:
             data = data + b"A" * (cur - len(data)) if cur > len(data) else data[:cur]
             with open(p, "r+b") as f:
                 f.write(data)
-            self.tick(p)
+            if kind == "set_older":
+                self.tick_back(p)
+            else:
+                self.tick(p)
         elif kind == "append":
             if not os.path.exists(p):
                 return False
